@@ -1168,10 +1168,28 @@ def add_and_update_gp(
     gp : GP
         The updated Gaussian process.
     """
-    gp.X = np.concatenate((gp.X, np.atleast_2d(x_new)))
-    gp.y = np.concatenate((gp.y, np.atleast_2d(y_new)))
-    if options["specify_target_noise"] and sd_new is not None:
-        gp.s2 = np.concatenate((gp.s2, np.atleast_2d(sd_new) ** 2))
+    idx_dup = np.flatnonzero(np.all(gp.X == np.atleast_2d(x_new), axis=1))
+    if (
+        options["specify_target_noise"]
+        and sd_new is not None
+        and idx_dup.size > 0
+    ):
+        # Repeated observation of a training point: the logger merged it into the
+        # point's record, so refresh that pair instead of adding a stale duplicate
+        idx_log = np.flatnonzero(
+            np.all(
+                function_logger.X[: function_logger.Xn + 1]
+                == np.atleast_2d(x_new),
+                axis=1,
+            )
+        )[0]
+        gp.y[idx_dup[0]] = function_logger.Y[idx_log]
+        gp.s2[idx_dup[0]] = function_logger.S[idx_log] ** 2
+    else:
+        gp.X = np.concatenate((gp.X, np.atleast_2d(x_new)))
+        gp.y = np.concatenate((gp.y, np.atleast_2d(y_new)))
+        if options["specify_target_noise"] and sd_new is not None:
+            gp.s2 = np.concatenate((gp.s2, np.atleast_2d(sd_new) ** 2))
 
     gp.update(compute_posterior=True)
 
